@@ -33,6 +33,17 @@ impl<T: Copy + Debug> Heartbeat<T> {
         }
     }
 
+    /// Verification hook: pretend the last activity happened `d` earlier.
+    #[cfg(amiquip_verif)]
+    pub fn verif_backdate(&mut self, d: Duration) {
+        self.last = self.last.checked_sub(d).expect("verif_backdate before clock origin");
+    }
+
+    #[cfg(amiquip_verif)]
+    pub fn verif_interval(&self) -> Duration {
+        self.interval
+    }
+
     pub fn record_activity(&mut self) {
         self.last = Instant::now();
     }
